@@ -24,7 +24,7 @@ def sh(cmd, cwd=None, env=None, timeout=3600):
 
 
 def main():
-    src, pid, name = sys.argv[1], sys.argv[2], sys.argv[3]
+    src, pid, name = os.path.abspath(sys.argv[1]), sys.argv[2], sys.argv[3]
     run_all = "--all" in sys.argv
     tier = sys.argv[sys.argv.index("--tier") + 1] if "--tier" in sys.argv else "quick"
     patch = os.path.join(src, "patch.diff")
@@ -82,7 +82,7 @@ def main():
     dst = os.path.join(VERIF, "seeded", name)
     os.makedirs(dst, exist_ok=True)
     for f in ("patch.diff", "demo.py", "notes.md"):
-        if os.path.exists(os.path.join(src, f)):
+        if os.path.exists(os.path.join(src, f)) and os.path.abspath(src) != os.path.abspath(dst):
             shutil.copy(os.path.join(src, f), os.path.join(dst, f))
     meta["needs_to_manifest"] = "see notes.md"
     meta["ran"] = ["baseline pytest with the change", "demo with and without the change", f"bin/check {' '.join(ids)} --tier {tier} with IXAI_REPO=<scratch copy>"]
